@@ -255,7 +255,8 @@ func c18OptMachine(c *Ctx, su *optSetup) *Machine[*optInst] {
 			c.Outcome(fmt.Sprint(in.x))
 			return out
 		},
-		Key: func(in *optInst) string { return stackage.VerifDump(in.x).Key(false) },
+		Observe: func(in *optInst) { observeAll(in.x) },
+		Key:     func(in *optInst) string { return stackage.VerifDump(in.x).Key(false) },
 	}
 }
 
@@ -500,6 +501,7 @@ func c18SetMachine(c *Ctx, kind string, maxDepth int) *Machine[*setInst] {
 			c.Outcome(s.String() + s.ID() + s.Category())
 			return out
 		},
+		Observe: func(in *setInst) { observeAll(in.s) },
 		Key: func(in *setInst) string {
 			// an ID assigned through "_addr" differs between instances; fold it into one state
 			return strings.ReplaceAll(stackage.VerifDump(in.s).Key(false), in.s.Addr(), "<addr>") + fmt.Sprint(in.auxOK)
@@ -609,6 +611,7 @@ func c18CondSetMachine(c *Ctx) *Machine[*csetInst] {
 			c.Outcome(cd.String() + cd.ID())
 			return out
 		},
+		Observe: func(in *csetInst) { observeAll(in.c) },
 		Key: func(in *csetInst) string {
 			return strings.ReplaceAll(stackage.VerifDump(in.c).Key(false), in.c.Addr(), "<addr>") + fmt.Sprint(in.auxOK)
 		},
@@ -745,7 +748,8 @@ func c18LvlMachine(c *Ctx, what string, pairs bool) *Machine[*lvlInst] {
 			c.Outcome("lvl" + got)
 			return out
 		},
-		Key: func(in *lvlInst) string { return fmt.Sprint(stackage.VerifDump(in.x).LogLvl) },
+		Observe: func(in *lvlInst) { observeAll(in.x) },
+		Key:     func(in *lvlInst) string { return fmt.Sprint(stackage.VerifDump(in.x).LogLvl) },
 	}
 }
 
@@ -827,21 +831,21 @@ func init() {
 		om, sm, lm, _ := build(c, "thorough")
 		for _, m := range om {
 			if m.Name == hc.Machine {
-				replayHistory(c, m, hc.History)
+				replayHistory(c, m, hc.History, hc.Observed)
 			}
 		}
 		for _, m := range sm {
 			if m.Name == hc.Machine {
-				replayHistory(c, m, hc.History)
+				replayHistory(c, m, hc.History, hc.Observed)
 			}
 		}
 		for _, m := range lm {
 			if m.Name == hc.Machine {
-				replayHistory(c, m, hc.History)
+				replayHistory(c, m, hc.History, hc.Observed)
 			}
 		}
 		if cm := c18CondSetMachine(c); cm.Name == hc.Machine {
-			replayHistory(c, cm, hc.History)
+			replayHistory(c, cm, hc.History, hc.Observed)
 		}
 	}})
 }
